@@ -214,9 +214,27 @@ def scan_and_attribute(spec, acc, case, mp_rel=""):
         trees.remove_tree(root)
 
 
+def sibling_scans(rnd, acc):
+    """All top-level packages of one project scanned one after the other in the same process, with imports
+    written relative to their common parent: the same written name is internal in one scan and external in the
+    next (state that leaks between scans shows up as a missing / extra edge)."""
+    tspec = trees.random_project(rnd, depth=3, imports_per_file=(1, 4), externals=0.0, name_imports=0.2)
+    n = trees.relativise_all(tspec, "", rnd, prob=0.8)
+    tops = [d for d in trees.all_dirs(tspec) if d and "/" not in d]
+    order = tops[:]
+    rnd.shuffle(order)
+    for mp_rel in order + order[:1]:
+        case = {"kind": "random", "spec": tspec, "mp": mp_rel, "note": "sibling scan sequence"}
+        scan_and_attribute(tspec, acc, case, mp_rel)
+        acc.count("sibling_scans")
+    acc.count("statements_written_relative_to_module_path_parent", n)
+
+
 def random_projects(spec, acc):
     rnd = random.Random(spec["seed"])
     for i in range(spec["n"]):
+        if i % 4 == 0:
+            sibling_scans(rnd, acc)
         tspec = trees.random_project(rnd, imports_per_file=(0, 4), externals=0.1, dangling=0.05)
         dirs = trees.all_dirs(tspec)
         mp_rel = rnd.choice(dirs) if rnd.random() < 0.4 else ""
